@@ -45,6 +45,9 @@ CLAIMED["C20"] = ("TLA+ MC_Cursor (positional cursors over the live lists of Adj
 CLAIMED["C19"] = ("TLA+ Ownership (strong holders = program handles, container, live Edge lists / orderings / Paths; adjacency entries weak) model-checked (ResultsKeepAlive, EdgesOwnNothing, AllDroppedAllReleased); every (state, action) case replayed on all four flavours with drop-counting payloads; released set compared after every step, all result nodes dereferenced, everything dropped at the end",
   "All states over 3 objects / <=2 weak edges (thorough <=3) incl. cycles and self-loops / <=2 handles / container / one live result x every enabled action, each built from scratch.", "§4 C19")
 
+CLAIMED["C17"] = ("TLA+ Locks (every public call as a program of lock steps, poisoning, Linearize property layer) explored by TLC over every scenario x interleaving; the same scenarios executed with real threads on the real RwLocks under a deterministic scheduler on the lock-point hook (all grant sequences, real blocking probed, writer preference simulated); per scenario the real outcome set must equal the model's, every outcome is judged by TLC (Linearizable, panic, poison, deadlock); listed design defects reported as KNOWN-FINDING by scenario class",
+  "All scenarios of 2 threads x 1 call over 2 nodes and initial graphs with <=2 edges (thorough: 2x2 calls, 3 nodes, 3 threads), every interleaving of lock acquisitions: ~12 000 scenarios / ~560 000 real executions per quick run. 24 scenario classes are genuine, unrepaired design-level defects (known_findings.json); any other failing class is a VIOLATION.", "§4 C17")
+
 NOT_YET = {}
 props = [json.loads(l) for l in open(os.path.join(V, "properties.jsonl"))]
 checks = []
